@@ -35,6 +35,12 @@ class LoopCtx:
             return False
         return not (set(iter_adaptors(self.src)) & LOSSY_ADAPTORS)
 
+    @property
+    def raw_src(self):
+        """The iterator term of the loop with loop-variant wrappers intact (identity of local collections)."""
+        d = self.it.switches[self.sw].discr[1]
+        return d[2][0] if d[0] == 'call' and d[2] else d
+
     def early_exits(self):
         """Blocks of the loop, other than its `next()` test, that can leave the loop (break / return / `?`)."""
         return sorted(b for b in self.blocks if b != self.sw and any(x not in self.blocks for x in self.it.succs.get(b, [])))
@@ -182,3 +188,62 @@ def flag_loops(facts, body, it):
                 continue
             out.append({'flag': local, 'init': init[0], 'loop': lp, 'flips': [b for b, _ in inside]})
     return out
+
+
+_WRAP = ('into_iter', 'iter', 'iter_mut', 'drain', 'deref', 'deref_mut', 'as_slice', 'as_mut_slice', 'copied', 'cloned',
+         'as_ref', 'borrow', 'into_values', 'values', 'keys', 'into_keys')
+
+
+def coll_local(raw):
+    """Name ('L<n>') of the local collection an (un-versioned) iterator / collection term denotes, or None."""
+    t = raw
+    for _ in range(16):
+        if t[0] == 'lv':
+            init = t[3]
+            if init[0] == 'call' and call_name(init) in _WRAP and init[2]:
+                t = init[2][0]      # widened iterator state: look at what it iterates
+                continue
+            return t[2] if t[2].startswith('L') else None
+        if t[0] == 'call' and call_name(t) in _WRAP and t[2]:
+            t = t[2][0]
+            continue
+        if t[0] == 'at':
+            t = t[2]
+            continue
+        return None
+    return None
+
+
+class Fill:
+    def __init__(self, loop, local, bb, vals):
+        self.loop, self.local, self.bb, self.vals = loop, local, bb, vals
+
+
+def fills_of(it):
+    """Every insertion of a value into a local collection inside a loop (innermost loop of the site)."""
+    out = []
+    lps = loops_of(it)
+    for bb, c in sorted(it.calls.items()):
+        if call_name(c.term) not in KEEP_CALLS or not c.args:
+            continue
+        a0 = c.args[0]
+        if a0.loc is None or a0.loc[0][0] != 'L' or a0.loc[1]:
+            continue
+        best = None
+        for lp in lps:
+            if bb in lp.blocks and (best is None or len(lp.blocks) < len(best.blocks)):
+                best = lp
+        if best is not None:
+            out.append(Fill(best, 'L%d' % a0.loc[0][1], bb, [a.val for a in c.args[1:]]))
+    return out
+
+
+def loop_of_item(it, t):
+    """The loop whose item the term t is (t = next(src).Some.0), or None."""
+    src = as_item(versionless(t))
+    if src is None:
+        return None
+    for lp in loops_of(it):
+        if versionless(lp.src) == versionless(src):
+            return lp
+    return None
